@@ -270,6 +270,27 @@ pub fn run(tier: &str, seed: u64) -> Report {
   }
   workspace_part(&mut report, &mut batch, &mut rng, if tier == "thorough" { 1500 } else { 150 });
   multi_package_part(&mut report, &mut batch, &mut rng, if tier == "thorough" { 1500 } else { 150 });
+  // the shape corpora of C09 and C10 (one syntax form per package): cache-less, cold, warm and a
+  // second cache-less run give the same output, all or nothing
+  {
+    let mut n = 0u64;
+    for (name, w) in crate::c09::shape_worlds().into_iter().chain(crate::c10::shape_worlds()) {
+      let replay = json!({"shape": name, "world": w.describe()});
+      let r0 = run_fast_check(&w, None, false);
+      let cache = MemCache::default();
+      let cold = run_fast_check(&w, Some(&cache), false);
+      let warm = run_fast_check(&w, Some(&cache), false);
+      let again = run_fast_check(&w, None, false);
+      report.evaluations += 1;
+      n += 1;
+      statement(&mut report, &w, &r0, &cold, false, &format!("shape `{}`, cold cache", name), &replay);
+      statement(&mut report, &w, &r0, &warm, true, &format!("shape `{}`, warm cache", name), &replay);
+      if let Some(d) = same_outputs(&r0, &again) {
+        report.fail("oracle", "result-differs-between-runs", format!("shape `{}`: {}", name, d), replay.clone());
+      }
+    }
+    report.count_n("shape-corpus-histories", n);
+  }
   batch.finish(&mut report, "C12");
   report
 }
